@@ -5,7 +5,7 @@
     getKI_setKI        getpath(p) after setpath(p; n) is n, whenever setpath succeeds — any value,
                        any key/index path: missing keys, null turned into a container, arrays
                        extended with nulls, negative indices, fractional and saturating indices
-    Loc q v x          `q` is a REAL location of `v` holding `x` (existing keys, in-range
+    Loc q v x          (Model/Pairs.lean) `q` is a REAL location of `v` holding `x` (existing keys, in-range
                        non-negative indices)
     getKI_of_Loc       getpath finds what a real location holds
     setKI_of_Loc       writing back what a real location holds changes nothing (objects sorted)
@@ -136,23 +136,15 @@ theorem getKI_setKI (n : JV) : ∀ (p : List JV) (v w : JV), setKI n p v = some 
 
 /-! ### real locations -/
 
-/-- `q` is a real location of `v`, holding `x`: every step finds an existing key, or an element at
-    a non-negative index that a Go `int` can hold -/
-def Loc : List JV → JV → JV → Prop
-  | [], v, x => v = x
-  | e :: q, v, x =>
-    match e, v with
-    | .str k, .obj kvs => ∃ y, kvLookup k kvs = some y ∧ Loc q y x
-    | .num (.int i), .arr xs => 0 ≤ i ∧ i ≤ maxInt ∧ ∃ y, xs[i.toNat]? = some y ∧ Loc q y x
-    | _, _ => False
-
 theorem Loc_nil (v x : JV) : Loc [] v x ↔ v = x := by simp [Loc]
 
 theorem Loc_key (k : Bytes) (q : List JV) (kvs : List (Bytes × JV)) (x : JV) :
     Loc (.str k :: q) (.obj kvs) x ↔ ∃ y, kvLookup k kvs = some y ∧ Loc q y x := by simp [Loc]
 
-theorem Loc_idx (i : Int) (q : List JV) (xs : List JV) (x : JV) :
-    Loc (.num (.int i) :: q) (.arr xs) x ↔ 0 ≤ i ∧ i ≤ maxInt ∧ ∃ y, xs[i.toNat]? = some y ∧ Loc q y x := by
+theorem Loc_num (m : Num) (q : List JV) (xs : List JV) (x : JV) :
+    Loc (.num m :: q) (.arr xs) x ↔
+      0 ≤ clampIndex (idxOf m) (-1) xs.length ∧ clampIndex (idxOf m) (-1) xs.length < xs.length ∧
+      ∃ y, xs[(clampIndex (idxOf m) (-1) xs.length).toNat]? = some y ∧ Loc q y x := by
   simp [Loc]
 
 theorem idxOf_int (i : Int) (h0 : 0 ≤ i) (h1 : i ≤ maxInt) : idxOf (.int i) = i := by
@@ -160,18 +152,21 @@ theorem idxOf_int (i : Int) (h0 : 0 ≤ i) (h1 : i ≤ maxInt) : idxOf (.int i) 
   have b : ¬ i > maxInt := by omega
   simp only [idxOf, toInt?, Option.getD_some, if_neg a, if_neg b]
 
-theorem indexArr_getElem (xs : List JV) (i : Int) (y : JV) (h0 : 0 ≤ i) (hy : xs[i.toNat]? = some y) :
-    indexArr xs i = y := by
+/-- a non-negative integer index below the length, that a Go `int` can hold -/
+theorem Loc_idx (i : Int) (q : List JV) (xs : List JV) (x : JV) (h0 : 0 ≤ i) (h1 : i ≤ maxInt) (y : JV)
+    (hy : xs[i.toNat]? = some y) (h : Loc q y x) : Loc (.num (.int i) :: q) (.arr xs) x := by
   have hlt : i.toNat < xs.length := by
     rcases List.getElem?_eq_some_iff.mp hy with ⟨h, _⟩; exact h
-  simp only [indexArr, clampIndex_nonneg i _ h0]
-  have : i < xs.length := by omega
-  rw [if_pos this, if_pos ⟨h0, this⟩]
-  simp [List.getD_eq_getElem?_getD, hy]
+  have hc : clampIndex (idxOf (.int i)) (-1) xs.length = i := by
+    rw [idxOf_int i h0 h1, clampIndex_nonneg i _ h0, if_pos (by omega)]
+  rw [Loc_num, hc]
+  exact ⟨h0, by omega, y, hy, h⟩
 
 theorem Loc_cases {e : JV} {q : List JV} {v x : JV} (h : Loc (e :: q) v x) :
     (∃ k kvs y, e = .str k ∧ v = .obj kvs ∧ kvLookup k kvs = some y ∧ Loc q y x) ∨
-    (∃ i xs y, e = .num (.int i) ∧ v = .arr xs ∧ 0 ≤ i ∧ i ≤ maxInt ∧ xs[i.toNat]? = some y ∧ Loc q y x) := by
+    (∃ m xs y, e = .num m ∧ v = .arr xs ∧ 0 ≤ clampIndex (idxOf m) (-1) xs.length ∧
+      clampIndex (idxOf m) (-1) xs.length < xs.length ∧
+      xs[(clampIndex (idxOf m) (-1) xs.length).toNat]? = some y ∧ Loc q y x) := by
   unfold Loc at h
   split at h
   · obtain ⟨y, h1, h2⟩ := h
@@ -191,9 +186,13 @@ theorem KIPath_of_Loc : ∀ (q : List JV) (v x : JV), Loc q v x → KIPath q
 theorem getKI_of_Loc : ∀ (q : List JV) (v x : JV), Loc q v x → getKI q v = some x
   | [], v, x, h => by simp only [Loc] at h; subst h; rfl
   | e :: q, v, x, h => by
-    rcases Loc_cases h with ⟨k, kvs, y, rfl, rfl, h1, h2⟩ | ⟨i, xs, y, rfl, rfl, h0, h1, hy, h2⟩
+    rcases Loc_cases h with ⟨k, kvs, y, rfl, rfl, h1, h2⟩ | ⟨m, xs, y, rfl, rfl, h0, h1, hy, h2⟩
     · simpa [getKI, h1] using getKI_of_Loc q y x h2
-    · simp only [getKI, idxOf_int i h0 h1, indexArr_getElem xs i y h0 hy]
+    · have : indexArr xs (idxOf m) = y := by
+        simp only [indexArr]
+        rw [if_pos ⟨h0, h1⟩]
+        simp [List.getD_eq_getElem?_getD, hy]
+      simp only [getKI, this]
       exact getKI_of_Loc q y x h2
 
 /-! ### writing back -/
@@ -252,21 +251,19 @@ theorem wfList_getElem (y : JV) : ∀ (l : List JV) (j : Nat), JV.wfList l = tru
 theorem setKI_of_Loc : ∀ (q : List JV) (v x : JV), v.wf = true → Loc q v x → setKI x q v = some v
   | [], v, x, _, h => by simp only [Loc] at h; subst h; rfl
   | e :: q, v, x, hw, h => by
-    rcases Loc_cases h with ⟨k, kvs, y, rfl, rfl, h1, h2⟩ | ⟨i, xs, y, rfl, rfl, h0, h1, hy, h2⟩
+    rcases Loc_cases h with ⟨k, kvs, y, rfl, rfl, h1, h2⟩ | ⟨m, xs, y, rfl, rfl, h0, h1, hy, h2⟩
     · simp only [JV.wf, Bool.and_eq_true] at hw
       have ih := setKI_of_Loc q y x (wfKvs_lookup k y kvs hw.2 h1) h2
       simp [setKI, h1, ih, kvInsert_lookup_self k y kvs hw.1 h1]
     · simp only [JV.wf] at hw
       have ih := setKI_of_Loc q y x (wfList_getElem y xs _ hw hy) h2
-      have hlt : i.toNat < xs.length := by
-        rcases List.getElem?_eq_some_iff.mp hy with ⟨h, _⟩; exact h
-      have hi : i < xs.length := by omega
-      have hget : xs.getD i.toNat .null = y := by simp [List.getD_eq_getElem?_getD, hy]
-      have hset : xs.set i.toNat y = xs := by
+      have hget : xs.getD (clampIndex (idxOf m) (-1) xs.length).toNat .null = y := by
+        simp [List.getD_eq_getElem?_getD, hy]
+      have hset : xs.set (clampIndex (idxOf m) (-1) xs.length).toNat y = xs := by
         rcases List.getElem?_eq_some_iff.mp hy with ⟨h, he⟩
         rw [← he]; exact List.set_getElem_self h
-      simp only [setKI, arrOf, idxOf_int i h0 h1, clampIndex_nonneg i _ h0, if_pos hi]
-      rw [hget, ih]
-      simp [hset, h0]
+      simp only [setKI, arrOf]
+      rw [if_neg (by omega), if_pos h1, hget, ih]
+      simp [hset]
 
 end Gojq.Pairs
